@@ -117,6 +117,20 @@ def check_statement(text):
         a, b, c = toks[i], toks[i + 1], toks[i + 2]
         if a.kind == 'punct' and a.text == '{' and b.kind == 'ident' and c.kind == 'punct' and c.text == '}':
             problems.append(('R1', f'unexpanded template field "{{{b.text}}}" at offset {a.pos}'))
+    # juxtaposed operands: a literal / parameter directly followed by another operand (no operator, comma or keyword
+    # between them) is not valid in any Cypher statement - typically a lost comma in a property map or argument list
+    for a, b in zip(toks, toks[1:]):
+        a_val = a.kind in ('param', 'string', 'number')
+        b_opnd = b.kind in ('param', 'string', 'number', 'bq') or (b.kind == 'ident' and b.text.upper() not in KEYWORDS
+                                                                  and b.text.upper() not in QUANTIFIERS)
+        if a_val and (b_opnd or (b.kind == 'punct' and b.text in '([{' and a.kind != 'number')):
+            if a.kind == 'number' and b.kind == 'punct':
+                continue
+            problems.append(('R1', f'operands "{a.text[:20]}" and "{b.text[:20]}" are juxtaposed at offset {b.pos} without an operator '
+                                   f'or separator (lost comma?): ...{text[max(0, a.pos - 20):b.pos + 20]!r}'))
+        if a.kind == 'punct' and a.text in ')]}' and b.kind in ('param', 'string', 'number'):
+            problems.append(('R1', f'"{a.text}" directly followed by operand "{b.text[:20]}" at offset {b.pos} (lost comma or operator?): '
+                                   f'...{text[max(0, a.pos - 20):b.pos + 20]!r}'))
     # parameters
     params = {t.text for t in toks if t.kind == 'param'}
     # variables
